@@ -3,7 +3,7 @@
 From Coq Require Import Permutation.
 From Base Require Import Prelude.
 From C07 Require Import Event Model Spec ProofsSort ProofsSets ProofsAuth ProofsGraph ProofsPower
-  ProofsMainline ProofsClosure ProofsResolve.
+  ProofsMainline ProofsClosure ProofsResolve ProofsFuel.
 From Coq Require Import ZifyBool ZifyNat ZifyN.
 
 Lemma reaches_mono st (f g : id -> bool) i j :
@@ -171,7 +171,7 @@ Proof.
   exact (ordering_eq st (fun _ _ => true) (fun _ => None) rank Hrank Hbound _ _ Hcl).
 Qed.
 
-Lemma resolve_eq_spec_partial
+Lemma resolve_eq_spec
   (st : store) (auth : event -> (key -> option event) -> bool) (auth_types : event -> option (list key))
   (rank : id -> nat) (c : id) (ce : event) (cr : str) (sets : list smap) (chains : list (list id)) (o : oracles) :
   (forall i e a, fetch st i = Some e -> In a (e_auth e) -> (rank a < rank i)%nat) ->
@@ -182,7 +182,6 @@ Lemma resolve_eq_spec_partial
   auth_local auth auth_types ->
   h_create st c ce cr -> pl_wf st ->
   (forall i e, fetch st i = Some e -> i <> c -> In c (e_auth e)) ->
-  (forall full control, build_graph st full control <> None) ->
   maps sets -> (forall ch, In ch chains -> NoDup ch) ->
   (forall s k i, In s sets -> In (k, i) s -> known st i = true) ->
   (conflicted_events sets = [] -> auth_difference chains = []) ->
@@ -193,9 +192,33 @@ Lemma resolve_eq_spec_partial
               /\ resolve_spec st auth auth_types true true sets chains = Some R
               /\ forall k, klookup k m = klookup k R.
 Proof.
-  intros Hrank Hbound Hak Hstate Huniq Hlocal Hc Hwf Hcite Hfuel Hm Hch Hsk Hchains Ho Hc1 Hc2.
-  destruct (resolve_eq_spec_dev st auth auth_types rank Hrank Hbound Hak Hstate Huniq Hlocal c ce cr Hc Hwf Hcite Hfuel
+  intros Hrank Hbound Hak Hstate Huniq Hlocal Hc Hwf Hcite Hm Hch Hsk Hchains Ho Hc1 Hc2.
+  destruct (resolve_eq_spec_dev st auth auth_types rank Hrank Hbound Hak Hstate Huniq Hlocal c ce cr Hc Hwf Hcite (build_graph_total st)
               sets chains Hm Hch Hsk Hchains o Ho) as (m & R & Em & ER & HmR).
   exists m, R. split; [exact Em|]. split; [|exact HmR].
   now rewrite <- (spec_dev_eq_lit st auth auth_types rank Hrank Hbound sets chains Hc1 Hc2).
+Qed.
+
+Lemma resolve_eq_spec_with_deviations
+  (st : store) (auth : event -> (key -> option event) -> bool) (auth_types : event -> option (list key))
+  (rank : id -> nat) (c : id) (ce : event) (cr : str) (sets : list smap) (chains : list (list id)) (o : oracles) :
+  (forall i e a, fetch st i = Some e -> In a (e_auth e) -> (rank a < rank i)%nat) ->
+  (forall i, known st i = true -> (rank i < List.length st)%nat) ->
+  (forall i e a, fetch st i = Some e -> In a (e_auth e) -> known st a = true) ->
+  all_state_events st ->
+  (forall i e, fetch st i = Some e -> auth_keys_unique st e) ->
+  auth_local auth auth_types ->
+  h_create st c ce cr -> pl_wf st ->
+  (forall i e, fetch st i = Some e -> i <> c -> In c (e_auth e)) ->
+  maps sets -> (forall ch, In ch chains -> NoDup ch) ->
+  (forall s k i, In s sets -> In (k, i) s -> known st i = true) ->
+  (conflicted_events sets = [] -> auth_difference chains = []) ->
+  perm_oracles o ->
+  exists m R, resolve st auth auth_types o sets chains = Ok m
+              /\ resolve_spec st auth auth_types false false sets chains = Some R
+              /\ forall k, klookup k m = klookup k R.
+Proof.
+  intros Hrank Hbound Hak Hstate Huniq Hlocal Hc Hwf Hcite Hm Hch Hsk Hchains Ho.
+  exact (resolve_eq_spec_dev st auth auth_types rank Hrank Hbound Hak Hstate Huniq Hlocal c ce cr Hc Hwf Hcite
+           (build_graph_total st) sets chains Hm Hch Hsk Hchains o Ho).
 Qed.
